@@ -178,6 +178,7 @@ type bcCase struct {
 	Refund     string     `json:"refund"`      // same|poor|rich
 	SendCallTo bool       `json:"send_call_to"`
 	SenderIsRefund bool   `json:"sender_is_refund"`
+	ViaEVM     bool       `json:"via_evm"`     // executed by an ordinary account through the executeClaim precompile (real EVM transaction path)
 }
 
 func (e *env) genBridgeCall() bcCase {
@@ -209,6 +210,7 @@ func (e *env) genBridgeCall() bcCase {
 	k.Refund = []string{"same", "same", "poor", "rich"}[r.Intn(4)]
 	k.SendCallTo = r.Chance(15)
 	k.SenderIsRefund = r.Chance(50)
+	k.ViaEVM = r.Chance(25)
 	if e.search {
 		// search mode: weight towards the situations a broken boundary would show up in
 		if k.Target == "eoa" || k.Target == "stop" {
@@ -240,6 +242,10 @@ func (e *env) bridgeCallCorpus() []string {
 		{Tokens: [][2]int64{{2, 8}}, Target: "invalid", Refund: "same", SendCallTo: true, SenderIsRefund: true},
 		{Tokens: [][2]int64{{2, 8}}, Target: "revert", Refund: "same", SendCallTo: true, SenderIsRefund: false},
 		{Tokens: nil, Target: "writerevert", Refund: "same"},
+		{Tokens: [][2]int64{{1, 5}, {0, 10}, {1, 2}}, Target: "writerevert", Refund: "same", ViaEVM: true},
+		{Tokens: [][2]int64{{0, 3}, {1, 4}}, Disabled: []int{1}, Target: "stop", Refund: "same", ViaEVM: true},
+		{Tokens: [][2]int64{{0, 10}}, Target: "revert", Refund: "poor", ViaEVM: true},
+		{Tokens: [][2]int64{{0, 10}, {9, 1}}, Target: "stop", Refund: "same", ViaEVM: true},
 		{Tokens: [][2]int64{{0, 3}, {9, 4}}, Target: "stop", Refund: "same"},
 	} {
 		out = append(out, e.bridgeCallCase(k))
@@ -400,7 +406,20 @@ func (e *env) bridgeCallCase(k bcCase) string {
 
 	// ---- branch 1: the real operation, as a transaction
 	B1, _ := B.CacheContext()
-	err := tryOn(B1, func(ctx sdk.Context) error { return x.Keeper.ExecuteClaim(ctx, nonce) })
+	var err error
+	if k.ViaEVM {
+		input, perr := crosschaintypes.GetABI().Pack("executeClaim", "eth", new(big.Int).SetUint64(nonce))
+		lib.Must(perr)
+		pre := lib.CrosschainPrecompile
+		res := c.EvmCall(B1, lib.EthKey(c.Seed, "anybody", 0).Hex(), &pre, nil, 40_000_000, input)
+		if res.Err != nil {
+			err = res.Err
+		} else if res.Failed {
+			err = fmt.Errorf("evm: %s", res.VmError)
+		}
+	} else {
+		err = tryOn(B1, func(ctx sdk.Context) error { return x.Keeper.ExecuteClaim(ctx, nonce) })
+	}
 	post := c.DumpAll(B1)
 	postBal := snapshot(B1)
 	evm1 := c.App.EvmKeeper.GetState(B1, to, common.Hash{}).Big()
@@ -449,7 +468,19 @@ func (e *env) bridgeCallCase(k bcCase) string {
 	wroteInside := innerFails && (len(sums) > 0 || writes != 0)
 
 	// ---- monitor: designated outcome on a second fresh branch, full dump comparison
-	if innerFails {
+	if innerFails && k.ViaEVM {
+		// through the EVM the dump also carries the caller's nonce, receipts etc.; the designated outcome is checked on
+		// every watched balance, the refund records and the claim
+		rel := "receiver==refund"
+		if receiver != refund {
+			rel = "receiver!=refund"
+		}
+		if err != nil || postBal != preBal || len(newCalls) != 1 || stillPending {
+			e.failSig(lib.Failure{Kind: "monitor", Sig: "C18:bridgecall:" + rel + ":evm",
+				What:   "inbound bridge call with a failing contract call, executed through the executeClaim precompile, did not end in the designated refund",
+				Replay: map[string]interface{}{"case": k, "error": fmt.Sprint(err), "balances_before": preBal, "balances_after": postBal, "new_refund_calls": newCalls, "still_pending": stillPending}})
+		}
+	} else if innerFails {
 		B2, _ := B.CacheContext()
 		e.designatedBridgeCall(B2, msg, nonce, refund)
 		want := c.DumpAll(B2)
